@@ -3,6 +3,7 @@ package vc
 import (
 	"fmt"
 	"go/types"
+	"regexp"
 
 	"golang.org/x/tools/go/ssa"
 )
@@ -207,18 +208,49 @@ func (e *Engine) scanFieldStores(pkg *types.Package) {
 }
 
 // initOnlyFact: the value lv just loaded from field idx of the struct that p (of type *nt) points to
-// equals the field's value on entry, when the object existed then.
+// is the field's one and only value: a function of the object (initv_T_f), whatever the state it is
+// read in. Objects that this symbolic execution allocates itself (they may still be under
+// construction when read) are left out.
 func (f *Frame) initOnlyFact(st *State, p string, nt *types.Named, idx int, addr, lv string, ft types.Type) {
-	if f.top == nil || f.top.entry == nil || st == f.top.entry {
+	if f.top == nil {
 		return
 	}
 	if !f.eng.initOnlyField(nt, idx) {
 		return
 	}
-	ev := f.load(f.top.entry, addr, ft)
-	if ev == lv {
-		return
+	fn := fmt.Sprintf("initv_%d_%d", f.eng.typeID(nt), idx)
+	f.ctx.DeclareOnce(fn, fmt.Sprintf("(declare-fun %s (Ptr) %s)", fn, f.ctx.sortOf(ft)))
+	cond := fmt.Sprintf("(not (= %s nil))", p)
+	for _, o := range f.top.ownObjs {
+		cond += fmt.Sprintf(" (not (= (pobj %s) %s))", p, o)
 	}
-	f.ctx.Fact(fmt.Sprintf("(=> (and (not (= %s nil)) (< (pobj %s) %s)) (= %s %s))", p, p, f.top.alloc0, lv, ev))
+	f.ctx.Fact(fmt.Sprintf("(=> (and %s) (= %s (%s %s)))", cond, lv, fn, p))
 	f.eng.note("init-only fields (unexported, stored only while their object is under construction) keep their value; writes through unsafe/reflect are not modelled")
 }
+
+// hasTypeParam reports whether t mentions a type parameter (no identity is assigned then).
+func hasTypeParam(t types.Type) bool {
+	switch u := t.(type) {
+	case *types.TypeParam:
+		return true
+	case *types.Pointer:
+		return hasTypeParam(u.Elem())
+	case *types.Slice:
+		return hasTypeParam(u.Elem())
+	case *types.Array:
+		return hasTypeParam(u.Elem())
+	case *types.Map:
+		return hasTypeParam(u.Key()) || hasTypeParam(u.Elem())
+	case *types.Chan:
+		return hasTypeParam(u.Elem())
+	case *types.Named:
+		for i := 0; i < u.TypeArgs().Len(); i++ {
+			if hasTypeParam(u.TypeArgs().At(i)) {
+				return true
+			}
+		}
+	}
+	return false
+}
+
+var aliasWord = regexp.MustCompile(`\b(byte|rune)\b`)
